@@ -232,17 +232,14 @@ func (e *Env) eval(x ast.Expr) TV {
 			if !ok {
 				e.fail("bad int literal %s", n.Value)
 			}
-			w := 64
-			if v.BitLen() > 64 {
-				w = 128
-			}
-			return TV{V: BVC(w, v), Signed: true, Untyped: true}
+			// untyped constants are kept 128 bits wide and truncated where they meet a typed operand
+			return TV{V: BVC(128, v), Signed: true, Untyped: true}
 		case token.CHAR:
 			r, _, _, err := strconv.UnquoteChar(n.Value[1:len(n.Value)-1], '\'')
 			if err != nil {
 				e.fail("bad char literal %s", n.Value)
 			}
-			return TV{V: BVI(64, int64(r)), Signed: true, Untyped: true}
+			return TV{V: BVI(128, int64(r)), Signed: true, Untyped: true}
 		}
 		e.fail("unsupported literal %s", n.Value)
 	case *ast.Ident:
@@ -421,7 +418,10 @@ func (e *Env) pkgIdent(pkg *types.Package, name string) (TV, bool) {
 		if b, ok := o.Type().(*types.Basic); ok && b.Info()&types.IsUntyped != 0 {
 			untyped = true
 		}
-		return TV{V: BVC(s.W, v), Signed: isSigned(o.Type()) || untyped, Untyped: untyped}, true
+		if untyped {
+			return TV{V: BVC(128, v), Signed: true, Untyped: true}, true
+		}
+		return TV{V: BVC(s.W, v), Signed: isSigned(o.Type()), Untyped: false}, true
 	case *types.Var:
 		if isErrorType(o.Type()) {
 			n := name
@@ -566,7 +566,7 @@ func (e *Env) call(n *ast.CallExpr) TV {
 		x, y, s := e.unify(a, b, n)
 		return TV{V: Ite(c, x, y), Signed: s, Untyped: a.Untyped && b.Untyped}
 	case "forall":
-		return TV{V: e.forall(n, True)}
+		return e.fail("forall is only allowed as a top-level conjunct or as the consequent of an implication")
 	case "old":
 		if e.old == nil {
 			return e.fail("old() not available here")
